@@ -2,7 +2,7 @@
 """No-false-alarm test: behaviour-preserving refactorings (written by sub-agents that never saw /verif)
 are applied to a scratch copy of /repo; the 43 tests and every relevant quick check must stay green.
 
-    refactor_check.py /tmp/rf/out/sm_1 [...]        (optionally --all-props)
+    refactor_check.py [DIR ...]        default: every /verif/refactors/<id>/ ; --all-props runs all 15 checks
 """
 import os, shutil, subprocess, sys, tempfile, time
 HERE = os.path.dirname(os.path.abspath(__file__))
@@ -26,6 +26,9 @@ BY_FILE = {
 
 def main():
     args = [a for a in sys.argv[1:] if not a.startswith("--")]
+    if not args:
+        rd = os.path.join(VERIF, "refactors")
+        args = [os.path.join(rd, n) for n in sorted(os.listdir(rd))]
     allp = "--all-props" in sys.argv
     bad = 0
     for src in args:
